@@ -238,13 +238,16 @@ def case_hist(c):
     arrays = {t: P[t] for t in tags}
     if kind == 'real':
         site = 'RealQuantizer.quantize'
-        custom = {'none': None, 'scalar': CUSTOM_SCALAR}[c['custom']]
+        custom = {'none': None, 'scalar': CUSTOM_SCALAR, 'scalar_f32': np.float32(CUSTOM_SCALAR), 'scalar_0d': np.array(CUSTOM_SCALAR),
+                  'scalar_i64': np.int64(3)}[c['custom']]
         ops = [(t,) for t in tags]
         part = _Part(site, c, arrays, V, res)
         parts = [part]
     else:
         site = 'ComplexQuantizer.quantize'
-        custom = {'none': None, 'scalar': CUSTOM_SCALAR, 'pair': CUSTOM_PAIR}[c['custom']]
+        custom = {'none': None, 'scalar': CUSTOM_SCALAR, 'pair': CUSTOM_PAIR, 'scalar_f32': np.float32(CUSTOM_SCALAR),
+                  'scalar_0d': np.array(CUSTOM_SCALAR), 'scalar_i64': np.int64(3), 'pair_arr': np.array(CUSTOM_PAIR),
+                  'pair_list': list(CUSTOM_PAIR)}[c['custom']]
         cr, ci = rq.split_custom_stds(custom)
         ops = [(tags[0], tags[1]), (tags[0], tags[2]), (tags[1], tags[2])]
         zs = [P[a] + 1j * P[b] for a, b in ops]
@@ -672,6 +675,10 @@ def run(ctx):
         if name == 'A':
             # every quantising call preceded by a refused one (sub-box: first target pair, all periods / N / customs / bits)
             cases += [dict(cc, refuse=True) for cc in cases if (cc['tm'], cc['fwhm']) == (TMEAN[0], FWHM[0])]
+            # the supplied deviation in the other carriers a caller may hold it in (numpy scalars of other widths, a 0-d array,
+            # a list / an array for the pair) -- 2.5 is exact in single precision
+            cases += [dict(cc, custom=cu) for cc in cases if (cc['tm'], cc['fwhm']) == (TMEAN[0], FWHM[0]) and cc['custom'] == 'scalar'
+                      and not cc.get('refuse') for cu in (('scalar_f32', 'scalar_0d', 'scalar_i64') + (('pair_arr', 'pair_list') if cc['kind'] == 'complex' else ()))]
             # the class interface with its integer settings as numpy fixed-width integers (sub-box: first target pair)
             cases += [dict(cc, itype=it) for cc in cases if (cc['tm'], cc['fwhm']) == (TMEAN[0], FWHM[0]) and cc['custom'] == 'none'
                       for it in ('uint8', 'int8', 'int16', 'int64')]
